@@ -12,21 +12,35 @@ import json, re, warnings
 from .common import Ctx, Driver, cps, tok
 
 MANIFEST = dict(
-    text=("Lean theorems over all element lists/trees, start elements, criteria and oracle predicates (regex, user functions): "
-          "the code-mirror of _find_all (both fast paths, the no-criteria branch, the SoupStrainer path with rule construction, "
-          "one-rule shortcut, prefixed-name retry, _attribute_match with the joined-value retry, string= via Tag.string, the "
-          "ElementFilter limit loop) returns exactly axis.filter(sat) for the documented meaning `sat` (findAll_eq_spec, "
-          "fast_eq_general, no_criteria_all_tags), limit k>=1 is the k-prefix (limit_prefix), the singular methods are head? of the "
-          "plural (find_first), tag(...) and tag.name are the same searches (call_is_find_all, getattr_is_find), a name function is "
-          "called once per candidate tag with the Tag (fn_called_once_with_tag), simple CSS selectors agree with their find_all "
-          "form (css_agrees); witness theorems for the unrepaired/known behaviours. Tie: differential runs of the real find_* "
-          "methods, Tag.__call__, Tag.__getattr__ and select() against the Lean model and against an independent Python "
-          "evaluator over parsed / API-built / edited trees with prefixes and multi-valued attributes."),
+    text=("Lean theorems for every sound variant of the code (in particular /repo HEAD), over all element lists / trees / pointer heaps, "
+          "start elements, criteria and oracle predicates (regular expressions and user functions are arbitrary predicates): the "
+          "code-mirror of _find_all (both fast paths, the no-criteria branch, the SoupStrainer path with rule construction, one-rule "
+          "shortcut, prefixed-name retry, _attribute_match with the joined-value retry, string= via Tag.string, the ElementFilter limit "
+          "loop) returns exactly axis.filter(sat) for the documented meaning `sat` (findAll_eq_spec, fast_eq_general, "
+          "no_criteria_all_tags, sole_empty_criterion_nothing), limit k>=1 is the k-prefix (limit_is_spec_prefix, limit_prefix), the "
+          "singular methods are head? of the plural (find_first_spec, find_first), tag(...) and tag.NAME are the same searches "
+          "(call_is_find_all, getattr_is_find, getattr_tag_suffix, getattr_dunder), a name function is called once per candidate tag "
+          "with the Tag and a limit only cuts that sequence (fn_called_once_with_tag, fn_calls_limit_prefix). The same on the pointer "
+          "heap with the real generators (Model/Heap iterators): heap_findAll_exact, heap_axes, heap_find_all_descendants, "
+          "recursive_false_sublist, and for the heap after ANY edit history / parse + edit history via C01 (search_after_any_history, "
+          "search_after_parse_and_edits). Forwarding glue of all sixteen wrappers read from the live source through ast and proved "
+          "over the whole generated table (forwarders_checked, forwarding_glue). CSS: dispatch of Tag.select/select_one/Tag.css.* to "
+          "soupsieve mirrored with the engine as a parameter (select_dispatch), simple selectors agree with their find_all form "
+          "(css_agrees) and through the dispatch under EngineSpec (css_select_eq_find_all). Hypotheses: Variant.Covers (for HEAD: "
+          "outside the known findings C10-empty-list-combined / C10-falsy-attrs-ignored; with the two proposed, unapplied patches: "
+          "none, *_proposed theorems), k>=1 (C10-limit-zero), well-formed prefixes; witnesses for each. Tie: differential runs of the "
+          "real find_* methods, Tag.__call__, Tag.__getattr__, select()/select_one against the Lean tree-level model, the Lean "
+          "heap-level model fed with the real pointer fields, and an independent Python evaluator, over parsed / API-built / edited "
+          "trees; exhaustive dispatch stream with a recording stand-in for soupsieve."),
     design="7/C10",
-    note=("regex and user functions enter the model as per-case truth tables; soupsieve is recorded (select() compared with "
-          "find_all on type/.class/#id/[a]/[a=v]/descendant/child selectors); the BeautifulSoup root is not used as start "
-          "element of the next/previous axes and is dropped from previous-axis results (C01 leaves its chain position free); "
-          "ElementFilter.filter never yields an empty NavigableString (stated)."),
+    note=("regex and user functions enter the model as per-case truth tables; the soupsieve ENGINE is recorded, not modelled (its "
+          "EngineSpec hypothesis — select = matching descendants in document order, limit k = prefix, select_one = first — is "
+          "validated on every CSS case; descendant/child combinators are compared with nested find_all in the harness only); at tree "
+          "level the BeautifulSoup root is not used as start element of the next/previous axes and is dropped from previous-axis "
+          "results (C01 leaves its chain position free) — the heap-level stream compares those cases too, on the real pointers; "
+          "ElementFilter.filter never yields an empty NavigableString (stated); the tree-level axes of Model/Search.lean are "
+          "definitions over the tree (the independent traversal), the heap-level axes are C01's iterators with C01's theorems; no Lean "
+          "theorem links a `Node` tree to a `Heap` (both are compared with the real code)."),
     technique="Lean 4 refinement proof (code-mirror = documented meaning) + differential correspondence + independent evaluator",
 )
 
@@ -34,9 +48,9 @@ NAMES = ["a", "b", "p", "div", "i", "x:y", "em"]
 PREFIXES = ["p", "q", "svg"]
 ATTRS = ["id", "class", "title", "href", "lang", "rel", "data-x", "class_"]
 KWKEYS = ["id", "class_", "title", "href", "lang", "rel"]
-CLASS_TOKENS = ["u", "v", "w", "big", "u-v"]
-VALUES = ["v", "w", "x1", "", "u v", "a b c", "3", "True"]
-TEXTS = ["hi", "x", "a b", "zz", " ", "3", "u"]
+CLASS_TOKENS = ["u", "v", "w", "big", "u-v", "U", "\u00e9"]
+VALUES = ["v", "w", "x1", "", "u v", "a b c", "3", "True", "V", "\u00e9", "\u2603 v", "1"]
+TEXTS = ["hi", "x", "a b", "zz", " ", "3", "u", "HI", "\u00e9\u2603", "1"]
 REGEXES = ["^a", "b", ":", "^p:", "v$", ".", "x|i", "^$", " ", "^u"]
 FAMILIES = ["desc", "child", "next", "prev", "nsib", "psib", "par"]
 # names only the API can produce (html.parser lower-cases and cannot start a tag with `_`): single-underscore names (legal
@@ -250,6 +264,29 @@ class Snap:
                 uni.add(str(n))
         self.enc = ";".join(toks)
         self.universe = sorted(uni)
+        self._henc = None
+
+    @property
+    def henc(self):
+        """the pointer heap as the real objects hold it: the six link fields and `contents` of every element"""
+        if self._henc is None:
+            from bs4 import BeautifulSoup
+            from bs4.element import PreformattedString
+            ref = lambda o: "~" if o is None else str(self.idx.get(id(o), 99999))
+            out = []
+            for i, n in enumerate(self.nodes):
+                if self.is_tag[i]:
+                    kind = "g" if isinstance(n, BeautifulSoup) else "t"
+                    val, pf = tok(n.name), ("~" if n.prefix is None else tok(n.prefix))
+                    ats = self.enc.split(";")[i].split(":")[4]
+                    kids = "+".join(str(self.idx[id(c)]) for c in n.contents) or "-"
+                else:
+                    kind = "p" if isinstance(n, PreformattedString) else "s"
+                    val, pf, ats, kids = tok(str(n)), "~", "-", "-"
+                out.append(f"{i}:{kind}:{ref(n.parent)}:{ref(n.previous_sibling)}:{ref(n.next_sibling)}:"
+                           f"{ref(n.previous_element)}:{ref(n.next_element)}:{kids}:{val}:{pf}:{ats}")
+            self._henc = ";".join(out)
+        return self._henc
 
     # axes from the independent traversal (indices)
     def axis(self, fam, s):
@@ -298,10 +335,16 @@ def enc_crit(c):
     return "L" + "|".join(enc_crit(x) for x in c[1])
 
 
-def py_crit(c, fnmk):
+def py_crit(c, fnmk, seq=0, strsub=0):
+    """the Python object for a criterion. `seq`: a list criterion is passed as list (0) / tuple (1) / generator (2);
+    `strsub`: a str criterion is passed as a plain str (0) or as an instance of a str subclass (1: NavigableString)"""
     k = c[0]
     if k == "n": return None
-    if k == "s": return c[1]
+    if k == "s":
+        if strsub:
+            from bs4.element import NavigableString
+            return NavigableString(c[1])
+        return c[1]
     if k == "y": return c[1].encode("utf8")
     if k == "b": return c[1]
     if k == "f": return fnmk(c[1])
@@ -309,7 +352,8 @@ def py_crit(c, fnmk):
     if k == "o": return c[1]
     if k == "N": return [True, "a"]
     # a nested list is ignored as a whole (filter.py:458-469); its content would match a lot if it were looked into
-    return [py_crit(x, fnmk) if x[0] != "N" else [True, "a", re.compile(".")] for x in c[1]]
+    items = [py_crit(x, fnmk, seq, strsub) if x[0] != "N" else [True, "a", re.compile(".")] for x in c[1]]
+    return items if seq == 0 else tuple(items) if seq == 1 else (x for x in items)
 
 
 def atoms(c):
@@ -454,7 +498,7 @@ def gen_atom(r, pool, role):
     if x < 0.90:
         return ("b", False)
     if x < 0.95:
-        return ("o", r.choice([3, 0, 2.5]))
+        return ("o", r.choice([3, 0, 2.5, 1, 1.0]))
     return ("n",)
 
 
@@ -478,7 +522,7 @@ def gen_query(r, snap: Snap, target=None):
     from bs4.element import Tag
     names = [n.name for n in snap.nodes[1:] if isinstance(n, Tag)] or ["a"]
     pnames = [f"{n.prefix}:{n.name}" for n in snap.nodes[1:] if isinstance(n, Tag) and n.prefix]
-    name_pool = names * 6 + pnames * 6 + NAMES + ["p:a", "q:b", "zz", "", "[document]", ":", "a:"]
+    name_pool = names * 6 + pnames * 6 + NAMES + ["p:a", "q:b", "zz", "", "[document]", ":", "a:", ":a", ":b", "A", "B"]
     texts = [str(n) for n in snap.nodes if not isinstance(n, Tag)] or ["x"]
     text_pool = texts * 5 + TEXTS
     val_pool = [u for u in snap.universe] * 3 + VALUES + CLASS_TOKENS
@@ -559,14 +603,32 @@ def run_real(snap: Snap, start: int, fam: str, form: str, limit, q: Q):
         return lambda x: str_fn(i, None if x is None else str(x))
 
     el = snap.nodes[start]
-    args, kw = [], {}
-    kw.update({k: py_crit(c, other_fn) for k, c in q.kwargs})
-    name = py_crit(q.name, name_fn)
-    attrs = {k: py_crit(c, other_fn) for k, c in q.attrs[1]} if q.attrs[0] == "D" else py_crit(q.attrs[1], other_fn)
+    # the argument forms are varied deterministically per case (so that a replay repeats them): list criteria as list / tuple /
+    # generator, str criteria as str / str subclass, and the call itself positional / defaults omitted / all keywords
+    import zlib
+    hsh = zlib.crc32(f"{snap.enc}|{start}|{fam}|{form}|{limit}|{q.enc()}".encode())
+    seq, strsub, style = hsh % 3, (hsh // 3) % 4 == 0, (hsh // 12) % 3
+    kw = {}
+    kw.update({k: py_crit(c, other_fn, seq, strsub) for k, c in q.kwargs})
+    name = py_crit(q.name, name_fn, seq, strsub)
+    # (a generator is always truthy: as a non-dict `attrs` value only list/tuple keep the truth value the model assumes)
+    attrs = {k: py_crit(c, other_fn, seq, strsub) for k, c in q.attrs[1]} if q.attrs[0] == "D" \
+        else py_crit(q.attrs[1], other_fn, seq % 2, strsub)
     if q.string != ("n",):
-        kw["string"] = py_crit(q.string, other_fn)
+        kw["string"] = py_crit(q.string, other_fn, seq, strsub)
     if fam == "child":
         kw["recursive"] = False
+    if style == 0:
+        args = [name, attrs]
+    elif style == 1:        # leave out what is at its default: `find_all()`, `find_all("a")`, `find_all(id="x")`
+        args = []
+        if not (q.attrs == ("D", [])):
+            kw["attrs"] = attrs
+        if name is not None:
+            args = [name]
+    else:
+        args = []
+        kw["name"], kw["attrs"] = name, attrs
     try:
         with warnings.catch_warnings():
             warnings.simplefilter("ignore")
@@ -574,16 +636,16 @@ def run_real(snap: Snap, start: int, fam: str, form: str, limit, q: Q):
                 m = getattr(el, METHODS[fam][0])
                 if limit is not None:
                     kw["limit"] = limit
-                res = m(name, attrs, **kw)
+                res = m(*args, **kw)
                 return [snap.idx.get(id(x), -1) for x in res], log
             if form == "one":
                 m = getattr(el, METHODS[fam][1])
-                res = m(name, attrs, **kw)
+                res = m(*args, **kw)
                 return (None if res is None else snap.idx.get(id(res), -1)), log
             if form == "call":
                 if limit is not None:
                     kw["limit"] = limit
-                res = el(name, attrs, **kw)
+                res = el(*args, **kw)
                 return [snap.idx.get(id(x), -1) for x in res], log
             raise AssertionError(form)
     except Exception as e:  # the property names no exception
@@ -660,7 +722,17 @@ def model_line(snap, start, fam, form, limit, q, variant=None, tabs=None):
     return f"c10 find {variant} {snap.enc} {start} {fam} {f} {lim} {q.enc()} {re_t} {ft} {fs}"
 
 
-def parse_model(fam, reply, singular):
+def heap_line(snap, start, fam, form, limit, q, variant=None, tabs=None):
+    """the same question to the heap-level model (findAllH / findOneH on the real pointer state)"""
+    variant = variant or MODEL_VARIANT
+    re_t, ft, fs = tabs or tables(snap, q)
+    lim = "none" if limit is None else str(limit)
+    fam2 = fam
+    f = "one" if form == "one" else "all"
+    return f"c10 findh {variant} {snap.henc} {start} {fam2} {f} {lim} {q.enc()} {re_t} {ft} {fs}"
+
+
+def parse_model(fam, reply, singular, keep_root=False):
     """model reply -> (res, log) with the root dropped on the previous axis"""
     if " | " not in reply:
         return reply, None
@@ -674,7 +746,7 @@ def parse_model(fam, reply, singular):
         for c in b.split(";"):
             k, i, x = c.split(":")
             log.append(("t", int(i), int(x)) if k == "t" else ("s", int(i), "" if x == "-" else "".join(chr(int(y)) for y in x.split(","))))
-    return drop_root(fam, res, log)
+    return (res, log) if keep_root else drop_root(fam, res, log)
 
 
 # --------------------------------------------------------------------------------------------------
@@ -799,7 +871,8 @@ def gen_case(r, snap: Snap):
         if n < 2:
             fam, start = "desc", 0
         else:
-            start = r.randrange(1, n)        # never the BeautifulSoup root (it may stand outside the chain)
+            # the BeautifulSoup root may stand outside the chain: as a start element it is compared at heap level only
+            start = 0 if r.random() < 0.04 else r.randrange(1, n)
     else:
         start = r.randrange(n)
     ax = snap.axis(fam, start)
@@ -818,6 +891,19 @@ def gen_case(r, snap: Snap):
 def check_case(ctx: Ctx, snap, case, tree_kind, lines, pend):
     start, fam, form, limit, q = case
     real, rlog = run_real(snap, start, fam, form, limit, q)
+    raw, rawlog = real, list(rlog)
+    heap_only = start == 0 and fam in ("next", "prev")
+    if heap_only:
+        # the BeautifulSoup root as start of the next/previous axes: whether it stands inside the element chain is left free
+        # by C01, so there is no tree-level expectation; the heap-level model runs on the real pointers and must agree
+        ctx.case(None)
+        ctx.count("heap-only:root-start")
+        tabs = tables(snap, q)
+        lines.append(heap_line(snap, start, fam, form, limit, q, tabs=tabs))
+        pend.append(({"op": "findh", "tree": snap.enc, "tree_kind": tree_kind, "markup": str(snap.soup), "start": start,
+                      "family": fam, "form": form, "limit": limit, "query": q.describe(),
+                      "q": [q.name, q.attrs, q.string, q.kwargs]}, raw, rawlog, fam, form, False, classify(q, limit, form), True))
+        return
     want, wlog = expected(snap, start, fam, form, limit, q)
     if not isinstance(real, str):
         real, rlog = drop_root(fam, real, rlog)
@@ -853,21 +939,34 @@ def check_case(ctx: Ctx, snap, case, tree_kind, lines, pend):
         bad = True
         ctx.violation("function given as the name criterion is not called exactly once per candidate tag with the Tag",
                       case=desc, expected=show_log(wlog), observed=show_log(rlog), stream="oracle-calllog", kf=kf)
-    lines.append(model_line(snap, start, fam, form, limit, q))
-    pend.append((desc, real, rlog, fam, form, bad, kf))
+    tabs = tables(snap, q)
+    lines.append(model_line(snap, start, fam, form, limit, q, tabs=tabs))
+    pend.append((desc, real, rlog, fam, form, bad, kf, False))
+    # the heap-level model on the real pointer state: compared without any canonicalisation of the root
+    lines.append(heap_line(snap, start, fam, form, limit, q, tabs=tabs))
+    pend.append((desc | {"op": "findh"}, raw, rawlog, fam, form, bad, kf, True))
 
 
 def flush_model(ctx: Ctx, drv: Driver, lines, pend):
     if not lines:
         return
     replies = drv.ask(lines)
-    for line, rep, (desc, real, rlog, fam, form, bad, kf) in zip(lines, replies, pend):
-        mres, mlog = parse_model(fam, rep, form == "one")
+    for line, rep, (desc, real, rlog, fam, form, bad, kf, heap) in zip(lines, replies, pend):
+        mres, mlog = parse_model(fam, rep, form == "one", keep_root=heap)
+        if heap:
+            ctx.count("model:heap-requests")
         if isinstance(real, str) or mres != real or mlog != rlog:
             ctx.corr_disagreements += 1
-            if not bad:
+            if bad and kf is not None:
+                # the case is in a known-finding class (its oracle failure is suppressed), but the code no longer behaves as
+                # the finding was recorded and modelled: that is a change of behaviour, reported unsuppressed
+                ctx.violation(f"behaviour inside the known-finding class {kf} differs from the recorded one (Lean mirror)",
+                              case=desc | {"line": line}, expected=f"{show_res(mres)} | {show_log(mlog or [])}",
+                              observed=f"{show_res(real)} | {show_log(rlog)}", model=rep, stream="correspondence-known-class")
+            elif not bad:
                 # model = documented meaning + mirrored quirks: a disagreement on results/log is a failing input
-                ctx.violation("real search differs from the Lean model (findAllFam)", case=desc | {"line": line},
+                ctx.violation("real search differs from the Lean model (" + ("findAllH on the real pointers" if heap else "findAllFam") + ")",
+                              case=desc | {"line": line},
                               expected=f"{show_res(mres)} | {show_log(mlog or [])}",
                               observed=f"{show_res(real)} | {show_log(rlog)}", model=rep, stream="correspondence", kf=kf)
     ctx.count("model:requests", len(lines))
@@ -984,6 +1083,22 @@ def run_css(ctx, r, snap, lines, pend):
         except Exception as e:
             got = f"exc:{type(e).__name__}"
         want = [snap.idx[id(x)] for x in res]
+        # EngineSpec of Props/C10.lean, validated on the real soupsieve: limit k = the first k, limit 0/None = all, select_one = first
+        try:
+            k = r.choice([1, 2, 3])
+            lim = [snap.idx.get(id(x), -1) for x in el.select(sel, limit=k)]
+            lim0 = [snap.idx.get(id(x), -1) for x in el.select(sel, limit=r.choice([0, None]))]
+            one = el.select_one(sel)
+            one = None if one is None else snap.idx.get(id(one), -1)
+            if isinstance(got, list) and (lim != want[:k] or lim0 != want or one != (want[0] if want else None)):
+                ctx.violation("select(limit=k) / select_one are not the prefix / first of select()", case={"op": "css", "markup": str(snap.soup),
+                              "tree": snap.enc, "start": start, "selector": sel, "limit": k},
+                              expected=f"{show_res(want[:k])} ; {show_res(want)} ; {show_res(want[0] if want else None)}",
+                              observed=f"{show_res(lim)} ; {show_res(lim0)} ; {show_res(one)}", stream="css")
+            ctx.count("css:limit+select_one")
+        except Exception as e:
+            ctx.violation("select(limit=k)/select_one raised", case={"op": "css", "markup": str(snap.soup), "selector": sel},
+                          expected="no exception", observed=type(e).__name__, stream="css")
         ctx.case((snap.enc, start, sel) if want else None)
         ctx.count("css:" + ("combinator" if form is None else form.split("/")[0]))
         desc = {"op": "css", "markup": str(snap.soup), "tree": snap.enc, "start": start, "selector": sel}
@@ -1007,6 +1122,106 @@ def flush_css(ctx, drv, lines, pend):
                               observed=show_res(got), model=rep, stream="correspondence-css")
     lines.clear()
     pend.clear()
+
+
+# --------------------------------------------------------------------------------------------------
+# CSS dispatch: Tag.select / Tag.select_one / Tag.css.* -> soupsieve call arguments, with a recording stand-in engine
+# --------------------------------------------------------------------------------------------------
+class _FakeSieve:
+    """drop-in for the soupsieve module (css.py documents `api` as such): records every call"""
+
+    class SoupSieve:        # the class css.py tests precompiled selectors against
+        pass
+
+    def __init__(self):
+        self.calls = []
+
+    def _rec(self, fn, has_limit, select, tag, ns, *rest, **kw):
+        if has_limit:
+            limit, flags = rest
+        else:
+            limit, flags = "-", rest[0]
+        self.calls.append((fn, select, tag, ns, limit, flags, dict(kw)))
+        return [tag] if fn in ("select", "filter", "iselect") else tag
+
+    def select(self, select, tag, ns=None, limit=0, flags=0, **kw): return self._rec("select", True, select, tag, ns, limit, flags, **kw)
+    def iselect(self, select, tag, ns=None, limit=0, flags=0, **kw): return self._rec("iselect", True, select, tag, ns, limit, flags, **kw)
+    def select_one(self, select, tag, ns=None, flags=0, **kw): return self._rec("select_one", False, select, tag, ns, flags, **kw)
+    def closest(self, select, tag, ns=None, flags=0, **kw): return self._rec("closest", False, select, tag, ns, flags, **kw)
+    def match(self, select, tag, ns=None, flags=0, **kw): return self._rec("match", False, select, tag, ns, flags, **kw)
+    def filter(self, select, tag, ns=None, flags=0, **kw): return self._rec("filter", False, select, tag, ns, flags, **kw)
+
+    def compile(self, select, ns=None, flags=0, **kw):
+        self.calls.append(("compile", select, None, ns, "-", flags, dict(kw)))
+        return _FakeSieve.SoupSieve()
+
+    def escape(self, ident):
+        return ident
+
+
+def css_dispatch_stream(ctx: Ctx, drv: Driver):
+    """every entry point x selector kind x namespaces x limit x flags x extra keyword: the recorded soupsieve call against
+    BS.Css.dispatch"""
+    import itertools
+    import bs4.css as cssmod
+    from bs4 import BeautifulSoup, ResultSet
+    from bs4.css import CSS
+    soup = BeautifulSoup('<a xmlns:x="u"><b>t</b></a>', "html.parser")
+    tag = soup.a
+    tag._namespaces = {"x": "u"}         # what a namespace-aware builder leaves there
+    given = {"y": "v"}
+    entries = ["tag.select", "tag.select_one", "css.select", "css.select_one", "css.iselect", "css.closest", "css.match",
+               "css.filter", "css.compile"]
+    lines, obs, cases = [], [], []
+    for entry, selk, nsk, lim, flg, extra in itertools.product(entries, "sc", ("none", "given"), ("unset", "none", "0", "3"),
+                                                             ("unset", "5"), (0, 1)):
+        takes_limit = entry in ("tag.select", "css.select", "css.iselect")
+        if not takes_limit and lim != "unset":
+            continue
+        fake = _FakeSieve()
+        sel = _FakeSieve.SoupSieve() if selk == "c" else "b"
+        kw = {}
+        if nsk == "given":
+            kw["namespaces"] = given
+        if lim != "unset":
+            kw["limit"] = None if lim == "none" else int(lim)
+        if flg != "unset":
+            kw["flags"] = int(flg)
+        if extra:
+            kw["custom"] = True
+        saved = cssmod.soupsieve
+        cssmod.soupsieve = fake            # Tag.css builds CSS(self) with the module global
+        try:
+            if entry.startswith("tag."):
+                res = getattr(tag, entry[4:])(sel, **kw)
+            else:
+                res = getattr(CSS(tag, api=fake), entry[4:])(sel, **kw)
+        except Exception as e:
+            res = e
+        finally:
+            cssmod.soupsieve = saved
+        if isinstance(res, Exception) or len(fake.calls) != 1:
+            got = f"exc:{type(res).__name__}" if isinstance(res, Exception) else f"calls:{len(fake.calls)}"
+        else:
+            fn, cs, ct, cns, climit, cflags, ckw = fake.calls[0]
+            nss = "none" if cns is None else "given" if cns is given else "tagns" if cns is tag._namespaces else "other"
+            lims = "-" if climit == "-" else "~" if climit is None else str(climit)
+            sels = "c" if cs is sel and selk == "c" else "s" if cs == "b" else "other"
+            got = (f"fn={fn} sel={sels} tag={1 if ct is tag else 0} ns={nss} limit={lims} flags={cflags} "
+                   f"extra={1 if ckw == {'custom': True} else 0 if not ckw else 'other'} wrap={1 if isinstance(res, ResultSet) else 0}")
+        lines.append(f"c10 cssd {entry} {selk} {nsk} {lim} {flg} {extra}")
+        obs.append(got)
+        cases.append({"op": "css-dispatch", "entry": entry, "selector": "precompiled" if selk == "c" else "str", "namespaces": nsk,
+                      "limit": lim, "flags": flg, "extra_kw": extra})
+    for line, rep_, got, c in zip(lines, drv.ask(lines), obs, cases):
+        ctx.case(("cssd", line))
+        ctx.count("cssd:" + c["entry"])
+        if rep_ != got:
+            ctx.corr_disagreements += 1
+            # the model is the documented forwarding (css.py docstrings): a difference is a failing input
+            ctx.violation("the CSS proxy does not hand soupsieve the documented arguments", case=c | {"line": line},
+                          expected=rep_, observed=got, model=rep_, stream="css-dispatch")
+    ctx.exhaustive_parts.append(f"CSS dispatch: all {len(lines)} combinations of entry point x selector kind x namespaces x limit x flags x extra keyword")
 
 
 DIRECTED = [
@@ -1078,6 +1293,8 @@ def run(ctx: Ctx):
         for nm in ("_id", "_missing", "_", "title", "doc", "missing", "bigTag", "big", "__x", "__wrapped__"):
             getattr_one(ctx, snap, start, nm, glines, gpend)
 
+    css_dispatch_stream(ctx, drv)
+
     # 2. generated trees x cases
     ntrees = ctx.n(500, 6000)
     per_tree = 96
@@ -1140,7 +1357,7 @@ def replay(path):
         print(f"re-run on the implementation: tag.{c['attr']} ->", show_res(real))
         print(f"property demands (tag.find({c['attr']!r}) / AttributeError for dunder names):", show_res(want))
         return 0 if real == want else 1
-    if c.get("op") != "find" or "q" not in c:
+    if c.get("op") not in ("find", "findh") or "q" not in c or (c.get("start") == 0 and c.get("family") in ("next", "prev")):
         print("(no automatic re-run for this kind of case; see the fields above)")
         return 1
 
